@@ -909,4 +909,201 @@ theorem Rep.insert {s : LDb} {A B : AL} (h : Rep s (A ++ B)) (before : Nat → B
       · subst hjl; simp only [if_true]; omega
       · rw [if_neg hjl, if_neg (Ne.symm hjl)]; omega
 
+/-! ### removal -/
+
+theorem node?_filter_map (s : LDb) (g : LNode → LNode) (hg : ∀ nd, (g nd).id = nd.id) (x t : Nat) (hx : x ≠ t)
+    (blk : Nat) (hn : List Nat) (tail : Nat) (lcnt : List Nat) :
+    node? ⟨blk, hn, tail, lcnt, (s.heap.map g).filter (fun nd => nd.id ≠ t)⟩ x = (node? s x).map g := by
+  simp only [node?, List.find?_filter, List.find?_map]
+  congr 2
+  funext nd
+  simp only [Function.comp, hg]
+  by_cases h : nd.id = x
+  · simp [h, hx]
+  · simp [h]
+
+theorem rm_link (j lt t v x : Nat) (mid B : AL) (hiff : j < lt + 1 → (v = x ↔ hasLvl j mid = false)) :
+    (if j < lt + 1 ∧ (if j < lt + 1 then v else 0) = x then (if j < lt + 1 then nextAt j B else 0)
+      else nextAt j (mid ++ (t, lt) :: B)) = nextAt j (mid ++ B) := by
+  rw [nextAt_append, nextAt_append]
+  by_cases hjl : j < lt + 1
+  · simp only [hjl, if_true, true_and]
+    cases hc : hasLvl j mid with
+    | false =>
+      rw [if_pos ((hiff hjl).2 hc)]
+      simp only [Bool.false_eq_true, if_false]
+    | true =>
+      have : ¬ v = x := by intro e; rw [(hiff hjl).1 e] at hc; exact absurd hc (by simp)
+      rw [if_neg this]
+      simp only [if_true]
+  · rw [if_neg (fun hh => hjl hh.1)]
+    simp only [nextAt, if_neg (show ¬ j ≤ lt by omega)]
+
+/-- the search of `_lx_del_sblk_lw` stops in front of `t` -/
+theorem Rep.remove_before {s : LDb} {A B : AL} {t lt : Nat} (h : Rep s (A ++ (t, lt) :: B)) :
+    ((order s).take ((order s).idxOf t)) = ids A := by
+  have hnd := h.nodup
+  have htA : t ∉ ids A := (nodup_mid hnd).2
+  rw [h.order_eq, ids_append, ids_cons, List.idxOf_append, if_neg htA, List.idxOf_cons_self, Nat.zero_add]
+  exact List.take_left
+
+theorem Rep.remove_eq {s : LDb} {A B : AL} {t lt : Nat} (h : Rep s (A ++ (t, lt) :: B)) :
+    remove s t =
+      { blk := s.blk,
+        hn := fixN ((List.range (lt + 1)).map (lowerAt · s.blk A)) (fun i => ((List.range (lt + 1)).map (nextAt · B)).getD i 0) s.blk (lt + 1) s.hn,
+        tail := if nextAt 0 B = 0 then lastId s.blk A else s.tail,
+        lcnt := unbump s.lcnt lt,
+        heap := (s.heap.map fun nd =>
+          (if nd.id = nextAt 0 B then
+            { nd with n := fixN ((List.range (lt + 1)).map (lowerAt · s.blk A)) (fun i => ((List.range (lt + 1)).map (nextAt · B)).getD i 0) nd.id (lt + 1) nd.n, p0 := lastId s.blk A }
+           else { nd with n := fixN ((List.range (lt + 1)).map (lowerAt · s.blk A)) (fun i => ((List.range (lt + 1)).map (nextAt · B)).getD i 0) nd.id (lt + 1) nd.n } : LNode)).filter
+          (fun nd => nd.id ≠ t) } := by
+  have hnd := h.nodup
+  rw [ids_append, ids_cons, List.nodup_append] at hnd
+  obtain ⟨_, hndB, hdisj⟩ := hnd
+  have hA : ∀ p ∈ A, (ids A).contains p.1 = true := by
+    intro p hp; simp only [List.contains_eq_mem, decide_eq_true_eq]; exact mem_ids.2 ⟨p.2, hp⟩
+  have hB : ∀ p ∈ (t, lt) :: B, (ids A).contains p.1 = false := by
+    intro p hp
+    simp only [List.contains_eq_mem, decide_eq_false_iff_not]
+    intro hx
+    exact hdisj p.1 hx p.1 (by rw [← ids_cons]; exact mem_ids.2 ⟨p.2, hp⟩) rfl
+  have hfb := h.findBounds_eq rfl (fun x => (ids A).contains x) hA hB lt
+  have hnode := h.node A t lt B rfl
+  simp only [remove, h.remove_before, h.lvlOf_eq (pre := A) (post := B) rfl, hfb, nextAt_zero_cons, ne_eq, not_true_eq_false,
+    if_false, hnode, canonNode]
+  rw [fixLevels_eq _ _ _ _ h.heap_ne_blk, setP0_eq]
+  · simp only [List.map_map, getD_map_range', if_pos (Nat.succ_pos lt)]
+    congr 2
+  · intro nd hnd
+    obtain ⟨nd0, h0, rfl⟩ := List.mem_map.1 hnd
+    exact h.heap_ne_zero nd0 h0
+
+theorem Rep.remove {s : LDb} {A B : AL} {t lt : Nat} (h : Rep s (A ++ (t, lt) :: B)) : Rep (remove s t) (A ++ B) := by
+  rw [h.remove_eq]
+  have hnd := h.nodup
+  have htA : t ∉ ids A := (nodup_mid hnd).2
+  have htB : t ∉ ids B := (nodup_mid hnd).1
+  rw [ids_append, ids_cons, List.nodup_append] at hnd
+  obtain ⟨hndA, hndtB, hdisj⟩ := hnd
+  have hndB := (List.nodup_cons.1 hndtB).2
+  have hdisjAB : ∀ a ∈ ids A, ∀ b ∈ ids B, a ≠ b := fun a ha b hb => hdisj a ha b (by simp [hb])
+  have hAL : ∀ p ∈ A, p ∈ A ++ (t, lt) :: B := fun p hp => by simp [hp]
+  have hBL : ∀ p ∈ B, p ∈ A ++ (t, lt) :: B := fun p hp => by simp [hp]
+  have hlt : lt < SLEVELS := (h.idok (t, lt) (by simp)).2.2
+  have hgid : ∀ nd : LNode, ((if nd.id = nextAt 0 B then
+            { nd with n := fixN ((List.range (lt + 1)).map (lowerAt · s.blk A)) (fun i => ((List.range (lt + 1)).map (nextAt · B)).getD i 0) nd.id (lt + 1) nd.n, p0 := lastId s.blk A }
+           else { nd with n := fixN ((List.range (lt + 1)).map (lowerAt · s.blk A)) (fun i => ((List.range (lt + 1)).map (nextAt · B)).getD i 0) nd.id (lt + 1) nd.n } : LNode)).id = nd.id := by
+    intro nd; split <;> rfl
+  have hlo : ∀ j, j < lt + 1 → ((List.range (lt + 1)).map (lowerAt · s.blk A)).getD j 0 = lowerAt j s.blk A := by
+    intro j hj; rw [getD_map_range', if_pos hj]
+  refine ⟨h.blk_ne, ?_, ?_, ?_, ?_, ?_, ?_, ?_, ?_⟩
+  · -- nodup
+    rw [ids_append, List.nodup_append]
+    exact ⟨hndA, hndB, hdisjAB⟩
+  · -- idok
+    intro p hp
+    rcases List.mem_append.1 hp with hp | hp
+    · exact h.idok p (hAL p hp)
+    · exact h.idok p (hBL p hp)
+  · -- heap_nodup
+    refine List.Pairwise.sublist ((List.filter_sublist).map _) ?_
+    rw [List.map_map]
+    have e : (s.heap.map ((fun nd : LNode => nd.id) ∘ fun nd => ((if nd.id = nextAt 0 B then
+            { nd with n := fixN ((List.range (lt + 1)).map (lowerAt · s.blk A)) (fun i => ((List.range (lt + 1)).map (nextAt · B)).getD i 0) nd.id (lt + 1) nd.n, p0 := lastId s.blk A }
+           else { nd with n := fixN ((List.range (lt + 1)).map (lowerAt · s.blk A)) (fun i => ((List.range (lt + 1)).map (nextAt · B)).getD i 0) nd.id (lt + 1) nd.n } : LNode)))) = s.heap.map (·.id) := by
+      apply List.map_congr_left; intro nd _; exact hgid nd
+    rw [e]
+    exact h.heap_nodup
+  · -- heap_ids
+    intro nd hnd
+    obtain ⟨hm, hne⟩ := List.mem_filter.1 hnd
+    obtain ⟨nd0, h0, rfl⟩ := List.mem_map.1 hm
+    rw [hgid nd0] at hne ⊢
+    have := h.heap_ids nd0 h0
+    rw [ids_append, ids_cons] at this
+    rw [ids_append]
+    rcases List.mem_append.1 this with h1 | h1
+    · simp [h1]
+    · rcases List.mem_cons.1 h1 with h1 | h1
+      · simp [h1] at hne
+      · simp [h1]
+  · -- node
+    intro pre x lx post hs
+    rcases split_cases2 hs with ⟨mid, hA', hpost⟩ | ⟨mid, hB', hpre⟩
+    · -- x in A
+      have hsOld : A ++ (t, lt) :: B = pre ++ (x, lx) :: (mid ++ (t, lt) :: B) := by rw [hA']; simp
+      have hxA : x ∈ ids A := by rw [hA', ids_append, ids_cons]; simp
+      have hxt : x ≠ t := fun e => htA (e ▸ hxA)
+      have hxmid : x ∉ ids mid := (nodup_mid (hA' ▸ hndA)).1
+      have hxu : x ≠ nextAt 0 B := by
+        intro e
+        have hx0 := (h.ne_blk hsOld).1
+        rw [e] at hx0
+        obtain ⟨l', hm, _⟩ := nextAt_mem 0 B ((h.nextAt_ne_zero hBL 0).1 hx0)
+        exact hdisjAB x hxA (nextAt 0 B) (mem_ids.2 ⟨l', hm⟩) e
+      rw [node?_filter_map s _ hgid x t hxt, h.node pre x lx _ hsOld]
+      simp only [Option.map_some, canonNode, if_neg hxu, hpost]
+      congr 2
+      apply ext_getD
+      · simp [fixN_length]
+      · intro j hj
+        simp only [fixN_length, List.length_map, List.length_range] at hj
+        simp only [fixN_getD, getD_map_range', List.length_map, List.length_range, hj, if_true, and_true]
+        exact rm_link j lt t _ x mid B (fun _ => lower_eq_iff s.blk j hA' (by omega) hxmid)
+    · -- x in B
+      have hsOld : A ++ (t, lt) :: B = (A ++ (t, lt) :: mid) ++ (x, lx) :: post := by rw [hB']; simp
+      have hxB : x ∈ ids B := by rw [hB', ids_append, ids_cons]; simp
+      have hxA : x ∉ ids A := fun hx => hdisjAB x hx x hxB rfl
+      have hxt : x ≠ t := fun e => htB (e ▸ hxB)
+      have hxb := (h.ne_blk hsOld).2.1
+      rw [node?_filter_map s _ hgid x t hxt, h.node _ x lx post hsOld]
+      have hnoop : fixN ((List.range (lt + 1)).map (lowerAt · s.blk A)) (fun i => ((List.range (lt + 1)).map (nextAt · B)).getD i 0)
+          x (lt + 1) ((List.range (lx + 1)).map (nextAt · post)) = (List.range (lx + 1)).map (nextAt · post) := by
+        apply fixN_noop
+        intro j hj
+        rw [hlo j hj]
+        exact lower_ne j hxA hxb
+      cases mid with
+      | nil =>
+        have hu : x = nextAt 0 B := by rw [hB']; simp [nextAt]
+        simp only [Option.map_some, canonNode, if_pos hu, hnoop, hpre, List.append_nil]
+      | cons q mid' =>
+        obtain ⟨y, ly⟩ := q
+        have hu : x ≠ nextAt 0 B := by
+          rw [hB']; simp only [List.cons_append, nextAt_zero_cons]
+          intro e
+          rw [hB', List.cons_append, ids_cons, ids_append, ids_cons] at hndB
+          have := (List.nodup_cons.1 hndB).1
+          apply this; rw [← e]; simp
+        simp only [Option.map_some, canonNode, if_neg hu, hnoop, hpre, lastId_append, lastId]
+  · -- head links
+    apply ext_getD
+    · simp [fixN_length, h.hn]
+    · intro j hj
+      simp only [fixN_length, h.hn, List.length_map, List.length_range] at hj
+      simp only [fixN_getD, h.hn, getD_map_range', List.length_map, List.length_range, hj, if_true, and_true]
+      exact rm_link j lt t _ s.blk A B (fun _ => h.lower_blk_iff hAL j)
+  · -- tail
+    left
+    cases B with
+    | nil => simp [nextAt]
+    | cons q B' =>
+      obtain ⟨y, ly⟩ := q
+      have hy : y ≠ 0 := (h.idok (y, ly) (by simp)).1
+      rw [nextAt_zero_cons, if_neg hy]
+      rcases h.tail with ht | ⟨ht, _⟩
+      · rw [ht, lastId_append, lastId_append]; simp [lastId]
+      · simp at ht
+  · -- counters
+    apply ext_getD
+    · simp [unbump, h.lcnt]
+    · intro j hj
+      simp only [unbump, List.length_set, h.lcnt, List.length_map, List.length_range] at hj
+      simp only [unbump, getD_set, h.lcnt, getD_map_range', List.length_map, List.length_range, hj, hlt, if_true, and_true,
+        cnt_append, cnt_cons]
+      by_cases hjl : j = lt
+      · subst hjl; simp only [if_true]; omega
+      · rw [if_neg hjl, if_neg (Ne.symm hjl)]; omega
+
 end IwModel.KvLinks
